@@ -69,11 +69,30 @@ pub open spec fn published_inode(ino: Inode, t: int, gran: int) -> Inode {
 pub open spec fn source_ready(w: World, from: PathV, to: PathV) -> bool {
     &&& w.is_entry(to) && !w.under_ro(to)
     &&& !w.dirs.contains(to)   // environment assumption: no directory is named like a key
-    &&& w.private_inode(from) && !w.under_ro(from)
+    &&& w.owned.contains(from) && !w.in_cache_namespace(from) && !w.under_ro(from) && from != to
     &&& w.files.contains_key(from) ==> {
         &&& w.supplied.contains((base_name(to), w.inode_at(from).content))
         &&& (w.must_sync ==> w.inode_at(from).synced)
     }
+}
+
+/// The source's inode is not (yet) visible under any name in a cache directory.
+pub open spec fn source_unaliased(w: World, from: PathV) -> bool {
+    w.files.contains_key(from) ==> forall|q: PathV| #[trigger] w.files.contains_key(q) && w.files[q] == w.files[from] ==> !w.in_cache_namespace(q)
+}
+
+/// What one (possibly failed) publication attempt may have done: the link set is unchanged, or exactly the
+/// publication happened (with or without the source link still there); inodes changed at most in their
+/// times and permission, never in content or durability.
+pub open spec fn attempt_effect(old: World, fin: World, from: PathV, to: PathV) -> bool {
+    &&& fin.dirs == old.dirs
+    &&& (fin.files == old.files || (old.files.contains_key(from) && (fin.files =~= old.files.remove(from).insert(to, old.files[from]) || fin.files =~= old.files.insert(
+        to,
+        old.files[from],
+    ))))
+    &&& forall|i: InodeId| #[trigger] old.inodes.contains_key(i) ==> fin.inodes.contains_key(i) && (fin.inodes[i] == old.inodes[i] || (old.files.contains_key(from) && i
+        == old.files[from] && fin.inodes[i] == (Inode { mtime: fin.inodes[i].mtime, atime: fin.inodes[i].atime, writable: fin.inodes[i].writable, ..old.inodes[i] }))
+        || (old.files.contains_key(to) && i == old.files[to] && fin.inodes[i] == (Inode { atime: fin.inodes[i].atime, ..old.inodes[i] })))
 }
 
 /// C09: a freshly stamped entry is *not* marked as read, whatever the granularity (<= 2 s).
@@ -120,7 +139,7 @@ pub proof fn lemma_stamped_unread(ino: Inode, t: int, gran: int)
     f.add_arg('std :: fs :: symlink_metadata', TW)
     f.add_arg('std :: fs :: set_permissions', TW)
     f.contract(
-        requires=[('', 'old(w).inv()'), ('C03 C19:chmod-only-before-publication', 'old(w).private_inode(pv(path))')],
+        requires=[('', 'old(w).inv()'), ('C03 C19 C15:chmod-only-through-a-private-path', 'old(w).owned.contains(pv(path)) && !old(w).under_ro(pv(path))')],
         ensures=[
             INV, BOOK,
             ('C06 C20:at-most-two-filesystem-calls', 'final(w).steps <= old(w).steps + 2 && final(w).opens == old(w).opens && final(w).published == old(w).published && final(w).now == old(w).now'),
@@ -205,9 +224,13 @@ pub proof fn lemma_stamped_unread(ino: Inode, t: int, gran: int)
             ('C18 C05:error-is-explained',
              'old(w).solo ==> (r.is_err() ==> final(w).dirs == old(w).dirs && (final(w).hard_faults > old(w).hard_faults || !old(w).files.contains_key(pv(from)) '
              '|| !old(w).dirs.contains(parent(pv(to)))))'),
+            ('C18 C02:on-error-either-nothing-or-exactly-the-publication-happened',
+             'r.is_err() ==> attempt_effect(*old(w), *final(w), pv(from), pv(to))'),
             ('C18 C02:failed-publication-leaves-entries-alone',
-             'old(w).solo ==> (r.is_err() && final(w).published == old(w).published ==> final(w).files == old(w).files '
-             '&& forall|i: InodeId| i != old(w).files[pv(from)] && old(w).inodes.contains_key(i) ==> #[trigger] final(w).inodes[i] == old(w).inodes[i])'),
+             'r.is_err() && final(w).published == old(w).published ==> final(w).files == old(w).files'),
+            ('C18 C05:without-a-real-fault-a-failed-attempt-published-nothing',
+             'r.is_err() && final(w).hard_faults == old(w).hard_faults ==> final(w).published == old(w).published && final(w).files == old(w).files '
+             '&& forall|i: InodeId| old(w).inodes.contains_key(i) && !(old(w).files.contains_key(pv(from)) && i == old(w).files[pv(from)]) ==> #[trigger] final(w).inodes[i] == old(w).inodes[i]'),
         ])
     f.insert_before('std :: fs :: rename',
                     'proof { lemma_stamped_unread(old(w).inode_at(pv(from)), w.now, w.gran); }\n        ')
@@ -234,17 +257,24 @@ pub proof fn lemma_stamped_unread(ino: Inode, t: int, gran: int)
              '&& final(w).files =~= old(w).files.remove(pv(from)).insert(pv(to), old(w).files[pv(from)]) && final(w).dirs == old(w).dirs '
              '&& final(w).inodes =~= old(w).inodes.insert(old(w).files[pv(from)], published_inode(old(w).inode_at(pv(from)), final(w).now, old(w).gran)) '
              '&& final(w).hard_faults == old(w).hard_faults && final(w).published == old(w).published + 1)'),
-            ('C11 C04 C09:put-never-overwrites-it-marks-the-existing-entry-as-read',
-             'old(w).solo ==> (r.is_ok() && old(w).files.contains_key(pv(to)) ==> old(w).files.contains_key(pv(from)) '
+            ('C11 C04:put-never-overwrites-an-existing-entry',
+             'r.is_ok() && old(w).files.contains_key(pv(to)) ==> old(w).files.contains_key(pv(from)) '
              '&& final(w).files =~= old(w).files.remove(pv(from)) && final(w).dirs == old(w).dirs && final(w).published == old(w).published '
-             '&& final(w).hard_faults == old(w).hard_faults '
-             '&& final(w).inode_at(pv(to)) == (Inode { atime: final(w).inode_at(pv(to)).atime, ..old(w).inode_at(pv(to)) }) && final(w).accessed(pv(to)) '
+             '&& final(w).hard_faults == old(w).hard_faults'),
+            ('C09 C11:put-on-an-existing-entry-marks-it-as-read-and-leaves-content-and-queue-position-alone',
+             'source_unaliased(*old(w), pv(from)) ==> (r.is_ok() && old(w).files.contains_key(pv(to)) ==> '
+             'final(w).inode_at(pv(to)) == (Inode { atime: final(w).inode_at(pv(to)).atime, ..old(w).inode_at(pv(to)) }) && final(w).accessed(pv(to)) '
              '&& forall|i: InodeId| i != old(w).files[pv(from)] && i != old(w).files[pv(to)] && old(w).inodes.contains_key(i) ==> #[trigger] final(w).inodes[i] == old(w).inodes[i])'),
             ('C18 C05:error-is-explained',
              'old(w).solo ==> (r.is_err() ==> final(w).dirs == old(w).dirs && (final(w).hard_faults > old(w).hard_faults || !old(w).files.contains_key(pv(from)) '
              '|| !old(w).dirs.contains(parent(pv(to)))))'),
+            ('C18 C02:on-error-either-nothing-or-exactly-the-publication-happened',
+             'r.is_err() ==> attempt_effect(*old(w), *final(w), pv(from), pv(to))'),
             ('C18 C02:failed-publication-leaves-entries-alone',
-             'old(w).solo ==> (r.is_err() && final(w).published == old(w).published ==> final(w).files == old(w).files)'),
+             'r.is_err() && final(w).published == old(w).published ==> final(w).files == old(w).files'),
+            ('C18 C05:without-a-real-fault-a-failed-attempt-published-nothing',
+             'r.is_err() && final(w).hard_faults == old(w).hard_faults ==> final(w).published == old(w).published && final(w).files == old(w).files '
+             '&& forall|i: InodeId| old(w).inodes.contains_key(i) && !(old(w).files.contains_key(pv(from)) && i == old(w).files[pv(from)]) ==> #[trigger] final(w).inodes[i] == old(w).inodes[i]'),
         ])
     f.insert_before('match std :: fs :: hard_link',
                     'proof { lemma_stamped_unread(old(w).inode_at(pv(from)), w.now, w.gran); }\n        ')
@@ -911,6 +941,170 @@ pub open spec fn is_temp_dir_of(w: World, tdir: PathV) -> bool {
     &&& forall|n: Seq<u8>| !w.under_ro(#[trigger] child(tdir, n))
 }
 ''')
+    u.text('''
+/// What one maintenance run of the cache directory `base` (prune, then temp cleanup) may change, on every exit.
+pub open spec fn cleanup_frame(old: World, fin: World, base: PathV) -> bool {
+    &&& fin.dirs == old.dirs
+    &&& fin.published == old.published
+    &&& forall|p: PathV| #[trigger] fin.files.contains_key(p) ==> old.files.contains_key(p) && fin.files[p] == old.files[p]
+    &&& forall|p: PathV| old.files.contains_key(p) && !(#[trigger] fin.files.contains_key(p)) ==> (old.in_cache_namespace(p) && parent(p) == base) || (p.len() > 0
+        && parent(p) == child(base, temp_name()) && old.inode_at(p).mtime + temp_age_ns() < fin.now)
+    &&& forall|ino: InodeId| #[trigger] old.inodes.contains_key(ino) ==> fin.inodes.contains_key(ino) && (fin.inodes[ino] == old.inodes[ino] || (
+    raw_cache::restamped(old.inodes[ino], fin.inodes[ino], old, fin) && exists|p: PathV|
+        #[trigger] old.files.contains_key(p) && old.files[p] == ino && old.in_cache_namespace(p) && parent(p) == base))
+}
+
+pub proof fn lemma_cleanup_frame_same(w: World, base: PathV)
+    requires
+        w.env_ok(),
+    ensures
+        forall|fin: World| #[trigger] fin.same_fs(w) && fin.published == w.published ==> cleanup_frame(w, fin, base),
+        forall|fin: World| #[trigger] raw_cache::prune_frame(w, fin, base) && fin.published == w.published ==> cleanup_frame(w, fin, base),
+{
+}
+
+pub proof fn lemma_cleanup_compose(old: World, m: World, fin: World, base: PathV)
+    requires
+        old.env_ok(),
+        raw_cache::prune_frame(old, m, base),
+        temp_frame(m, fin, child(base, temp_name()), fin.now),
+        m.kept(old),
+        fin.kept(m),
+        m.published == old.published,
+        fin.published == m.published,
+    ensures
+        cleanup_frame(old, fin, base),
+{
+    assert forall|p: PathV| old.files.contains_key(p) && !(#[trigger] fin.files.contains_key(p)) implies (old.in_cache_namespace(p) && parent(p) == base) || (p.len() > 0
+        && parent(p) == child(base, temp_name()) && old.inode_at(p).mtime + temp_age_ns() < fin.now) by {
+        if m.files.contains_key(p) {
+            let ino = old.files[p];
+            assert(m.files[p] == ino);
+            assert(old.inodes.contains_key(ino));
+            if m.inodes[ino] != old.inodes[ino] {
+                assert(raw_cache::restamped(old.inodes[ino], m.inodes[ino], old, m));
+                assert(old.inodes[ino].mtime <= trunc(old.now, old.gran));
+            }
+        }
+    }
+    assert forall|ino: InodeId| #[trigger] old.inodes.contains_key(ino) implies fin.inodes.contains_key(ino) && (fin.inodes[ino] == old.inodes[ino] || (
+    raw_cache::restamped(old.inodes[ino], fin.inodes[ino], old, fin) && exists|p: PathV|
+        #[trigger] old.files.contains_key(p) && old.files[p] == ino && old.in_cache_namespace(p) && parent(p) == base)) by {
+        if m.inodes[ino] != old.inodes[ino] {
+            raw_cache::lemma_restamped_later(old.inodes[ino], m.inodes[ino], old, m, fin);
+        }
+    }
+}
+
+/// What the caller of set/put hands in: a private path (never a cache entry itself) whose file, if it
+/// exists, holds the bytes supplied for this key and is already flushed when auto_sync demands it.
+pub open spec fn value_ready(w: World, value: PathV, base: PathV, name: Seq<u8>) -> bool {
+    &&& w.owned.contains(value) && !w.in_cache_namespace(value) && !w.under_ro(value)
+    &&& !w.dirs.contains(child(base, name))
+    &&& value != child(base, name)
+    &&& w.files.contains_key(value) ==> {
+        &&& w.supplied.contains((name, w.inode_at(value).content))
+        &&& (w.must_sync ==> w.inode_at(value).synced)
+        &&& forall|q: PathV| #[trigger] w.files.contains_key(q) && w.files[q] == w.files[value] ==> !w.in_cache_namespace(q)
+    }
+}
+
+pub proof fn lemma_ready_after_cleanup(old: World, m: World, value: PathV, base: PathV, name: Seq<u8>)
+    requires
+        old.inv(),
+        m.kept_nc(old),
+        cleanup_frame(old, m, base),
+        value_ready(old, value, base, name),
+        valid_key(name),
+        old.cache_dirs.contains(base),
+        !old.under_ro(child(base, name)),
+    ensures
+        raw_cache::source_ready(m, value, child(base, name)),
+{
+    lemma_child(base, name);
+    if m.files.contains_key(value) {
+        let ino = old.files[value];
+        assert(m.files[value] == ino);
+        assert(old.inodes.contains_key(ino));
+        if m.inodes[ino] != old.inodes[ino] {
+            let p = choose|p: PathV| #[trigger] old.files.contains_key(p) && old.files[p] == ino && old.in_cache_namespace(p) && parent(p) == base;
+            assert(false);
+        }
+    }
+}
+
+/// After a failed first attempt and `create_dir_all(parent)`, the second attempt's precondition still holds.
+pub proof fn lemma_ready_after_retry(wm: World, w1: World, w2: World, value: PathV, base: PathV, name: Seq<u8>)
+    requires
+        raw_cache::source_ready(wm, value, child(base, name)),
+        raw_cache::attempt_effect(wm, w1, value, child(base, name)),
+        w1.kept(wm),
+        w2.kept(w1),
+        w2.files == w1.files,
+        w2.inodes == w1.inodes,
+        forall|d: PathV| #[trigger] w2.dirs.contains(d) ==> w1.dirs.contains(d) || d.is_prefix_of(base),
+        wm.env_ok(),
+    ensures
+        raw_cache::source_ready(w2, value, child(base, name)),
+{
+    lemma_child(base, name);
+    let to = child(base, name);
+    assert(!to.is_prefix_of(base)) by {
+        if to.is_prefix_of(base) {
+            assert(to.len() <= base.len());
+        }
+    }
+    if w2.files.contains_key(value) {
+        assert(wm.files.contains_key(value));
+        assert(w2.files[value] == wm.files[value]);
+        assert(wm.inodes.contains_key(wm.files[value]));
+    }
+}
+
+/// The exact effect of `CacheDir::set` when nothing failed and the directory exists: maintenance first (`m` is the world after it, with
+/// nothing published yet), then the value becomes the newest, unread, read-only entry under its key.
+pub open spec fn set_exact(old: World, m: World, fin: World, base: PathV, name: Seq<u8>, value: PathV, maintained: bool) -> bool {
+    &&& cleanup_frame(old, m, base)
+    &&& (!maintained ==> m.same_fs(old))
+    &&& m.files.contains_key(value)
+    &&& fin.published == m.published + 1
+    &&& fin.files =~= m.files.remove(value).insert(child(base, name), m.files[value])
+    &&& fin.inodes =~= m.inodes.insert(m.files[value], raw_cache::published_inode(m.inode_at(value), fin.now, old.gran))
+    &&& forall|d: PathV| #[trigger] m.dirs.contains(d) ==> fin.dirs.contains(d)
+    &&& forall|d: PathV| #[trigger] fin.dirs.contains(d) ==> m.dirs.contains(d) || d.is_prefix_of(base)
+}
+
+/// Same for `put`: inserts like `set` when the key is absent; otherwise only consumes the source and marks
+/// the existing entry as read, leaving its content and queue position alone.
+pub open spec fn put_exact(old: World, m: World, fin: World, base: PathV, name: Seq<u8>, value: PathV, maintained: bool) -> bool {
+    &&& cleanup_frame(old, m, base)
+    &&& (!maintained ==> m.same_fs(old))
+    &&& m.files.contains_key(value)
+    &&& forall|d: PathV| #[trigger] m.dirs.contains(d) ==> fin.dirs.contains(d)
+    &&& forall|d: PathV| #[trigger] fin.dirs.contains(d) ==> m.dirs.contains(d) || d.is_prefix_of(base)
+    &&& if !m.files.contains_key(child(base, name)) {
+        &&& fin.published == m.published + 1
+        &&& fin.files =~= m.files.remove(value).insert(child(base, name), m.files[value])
+        &&& fin.inodes =~= m.inodes.insert(m.files[value], raw_cache::published_inode(m.inode_at(value), fin.now, old.gran))
+    } else {
+        &&& fin.published == m.published
+        &&& fin.files =~= m.files.remove(value)
+        &&& fin.inode_at(child(base, name)) == (Inode { atime: fin.inode_at(child(base, name)).atime, ..m.inode_at(child(base, name)) })
+        &&& fin.accessed(child(base, name))
+        &&& forall|i: InodeId| i != m.files[value] && i != m.files[child(base, name)] && m.inodes.contains_key(i) ==> #[trigger] fin.inodes[i] == m.inodes[i]
+    }
+}
+
+/// C15 C16 C17 on every exit of a write: whatever changed is this cache directory's business.
+pub open spec fn write_frame(old: World, fin: World, base: PathV, name: Seq<u8>, value: PathV) -> bool {
+    &&& forall|d: PathV| #[trigger] old.dirs.contains(d) ==> fin.dirs.contains(d)
+    &&& forall|d: PathV| #[trigger] fin.dirs.contains(d) ==> old.dirs.contains(d) || d.is_prefix_of(base)
+    &&& forall|p: PathV| #[trigger] fin.files.contains_key(p) && !old.files.contains_key(p) ==> p == child(base, name)
+    &&& forall|p: PathV| old.files.contains_key(p) && !(#[trigger] fin.files.contains_key(p)) ==> p == value || (old.in_cache_namespace(p) && parent(p) == base) || (
+    p.len() > 0 && parent(p) == child(base, temp_name()))
+    &&& forall|p: PathV| #[trigger] fin.files.contains_key(p) && old.files.contains_key(p) && fin.files[p] != old.files[p] ==> p == child(base, name)
+}
+''')
     cl = u.under_contract(u.item('src/cache_dir.rs', ['fn cleanup_temporary_directory']), ['C02', 'C17', 'C05', 'C06', 'C18', 'C15'])
     cl.air = r'cache_dir::cleanup_temporary_directory(::handle)?'
     cl.add_param(W)
@@ -957,7 +1151,8 @@ pub open spec fn is_temp_dir_of(w: World, tdir: PathV) -> bool {
 
     # ---- trait CacheDir ----------------------------------------------------------------------
     t = u.item('src/cache_dir.rs', ['trait CacheDir'])
-    KEEP = {'temp_dir', 'base_dir', 'trigger', 'capacity', 'get', 'touch'}
+    KEEP = {'temp_dir', 'base_dir', 'trigger', 'capacity', 'get', 'touch', 'ensure_temp_dir', 'cleanup_temp_directory',
+            'definitely_cleanup', 'maybe_cleanup', 'maintain', 'set', 'put'}
     dropped = t.drop_members_except(KEEP)
     if dropped:
         u.dropped.append('cache_dir.rs: CacheDir members not (yet) under contract: ' + ', '.join(dropped))
@@ -970,13 +1165,6 @@ pub open spec fn is_temp_dir_of(w: World, tdir: PathV) -> bool {
         d.insert_before_tok(d.fn_kw(), 'spec fn spec_%s(&self) -> %s;\n    ' % (name.replace('_dir', ''), ret))
         d.contract(ensures=[('', spec)])
         decl[name] = d
-    decl['temp_dir'].insert_before_tok(decl['temp_dir'].fn_kw(),
-        '/// Configuration well-formedness of a cache directory handle: the temp dir is `<base>/.kismet_temp`.\n'
-        '    open spec fn wf(&self) -> bool { self.spec_temp() == child(self.spec_base(), temp_name()) }\n\n'
-        '    /// The operation runs on a configured read-write cache directory.\n'
-        '    open spec fn rw(&self, w: World) -> bool { self.wf() && w.cache_dirs.contains(self.spec_base()) && !w.under_ro(self.spec_base()) '
-        '&& !w.under_ro(self.spec_temp()) && forall|n: Seq<u8>| !w.under_ro(#[trigger] child(self.spec_base(), n)) }\n\n    ')
-
     # get
     g = u.under_contract(t.sub(['fn get']), ['C01', 'C04', 'C05', 'C06', 'C09', 'C11', 'C13', 'C15', 'C16', 'C18', 'C19', 'C20'])
     g.air = r'cache_dir::CacheDir::get'
@@ -1031,6 +1219,120 @@ pub open spec fn is_temp_dir_of(w: World, tdir: PathV) -> bool {
              'r.is_err() ==> final(w).same_fs(*old(w)) && (!first_byte_ok(str_bytes(name)) || str_bytes(name).contains(0x2fu8) || final(w).hard_faults > old(w).hard_faults)'),
         ])
     th.body_start('broadcast use group_asref;')
+
+    # ---- maintenance plumbing and writes ------------------------------------------------------
+    BASE = 'self.spec_base()'
+    et = u.under_contract(t.sub(['fn ensure_temp_dir']), ['C02', 'C15', 'C16', 'C18', 'C06'])
+    et.air = r'cache_dir::CacheDir::ensure_temp_dir'
+    et.add_param(W)
+    et.add_arg('ensure_directory', TW)
+    et.contract(
+        requires=[('', 'old(w).inv() && (self.spec_temp() == child(self.spec_base(), temp_name()) && old(w).cache_dirs.contains(self.spec_base()) && !old(w).under_ro(self.spec_base()) && !old(w).under_ro(self.spec_temp()) && (forall|n: Seq<u8>| !old(w).under_ro(#[trigger] child(self.spec_base(), n))) && (forall|n: Seq<u8>| !old(w).under_ro(#[trigger] child(self.spec_temp(), n))))')],
+        ensures=[INV, BOOK,
+                 ('C02 C16:temp-dir-is-the-kismet-temp-subdirectory', 'r.is_ok() ==> cowv(r.unwrap()) == self.spec_temp() && final(w).dirs.contains(self.spec_temp())'),
+                 ('C02 C15:only-directories-are-created', 'final(w).files == old(w).files && final(w).inodes == old(w).inodes && final(w).published == old(w).published '
+                  '&& (forall|d: PathV| #[trigger] old(w).dirs.contains(d) ==> final(w).dirs.contains(d)) '
+                  '&& (forall|d: PathV| #[trigger] final(w).dirs.contains(d) ==> old(w).dirs.contains(d) || d.is_prefix_of(self.spec_temp()))'),
+                 ('C06 C20:at-most-two-filesystem-calls', 'final(w).steps <= old(w).steps + 2 && final(w).opens == old(w).opens'),
+                 ('C18:error-is-a-real-fault', 'r.is_err() ==> final(w).hard_faults > old(w).hard_faults')])
+    et.body_start('proof { lemma_child(self.spec_base(), temp_name()); }')
+
+    ct = u.under_contract(t.sub(['fn cleanup_temp_directory']), ['C02', 'C17', 'C18', 'C06'])
+    ct.air = r'cache_dir::CacheDir::cleanup_temp_directory'
+    ct.add_param(W)
+    ct.add_arg('cleanup_temporary_directory', TW)
+    ct.contract(
+        requires=[('', 'old(w).inv() && (self.spec_temp() == child(self.spec_base(), temp_name()) && old(w).cache_dirs.contains(self.spec_base()) && !old(w).under_ro(self.spec_base()) && !old(w).under_ro(self.spec_temp()) && (forall|n: Seq<u8>| !old(w).under_ro(#[trigger] child(self.spec_base(), n))) && (forall|n: Seq<u8>| !old(w).under_ro(#[trigger] child(self.spec_temp(), n))))')],
+        ensures=[INV, ('', 'final(w).kept(*old(w))'),
+                 ('C17 C02:only-stale-temporary-files-are-removed', 'temp_frame(*old(w), *final(w), self.spec_temp(), final(w).now)'),
+                 ('C06:three-calls-per-directory-item', 'final(w).steps <= old(w).steps + 2 + 3 * (final(w).listed - old(w).listed) && final(w).opens <= old(w).opens + 1 && final(w).published == old(w).published'),
+                 ('C05 C18:error-is-a-real-fault', 'r.is_err() ==> final(w).hard_faults > old(w).hard_faults')])
+    ct.body_start('proof { lemma_child(self.spec_base(), temp_name()); }')
+
+    dc = u.under_contract(t.sub(['fn definitely_cleanup']), ['C02', 'C07', 'C17', 'C05', 'C18', 'C06', 'C10', 'C11'])
+    dc.air = r'cache_dir::CacheDir::definitely_cleanup'
+    dc.add_param(W)
+    dc.add_arg('raw_cache :: prune', TW)
+    dc.add_arg('self . cleanup_temp_directory', TW)
+    dc.contract(
+        requires=[('', 'old(w).inv() && (self.spec_temp() == child(self.spec_base(), temp_name()) && old(w).cache_dirs.contains(self.spec_base()) && !old(w).under_ro(self.spec_base()) && !old(w).under_ro(self.spec_temp()) && (forall|n: Seq<u8>| !old(w).under_ro(#[trigger] child(self.spec_base(), n))) && (forall|n: Seq<u8>| !old(w).under_ro(#[trigger] child(self.spec_temp(), n)))) && pbv(base_dir) == self.spec_base()')],
+        ensures=[INV, ('', 'final(w).kept(*old(w))'),
+                 ('C17 C07 C02:maintenance-deletes-only-evictable-entries-and-stale-temporary-files', 'cleanup_frame(*old(w), *final(w), self.spec_base())'),
+                 ('C06:linear-in-the-number-of-directory-entries', 'final(w).steps <= old(w).steps + 4 + 3 * (final(w).listed - old(w).listed) && final(w).opens <= old(w).opens + 2'),
+                 ('C05 C18:error-is-a-real-fault', 'r.is_err() ==> final(w).hard_faults > old(w).hard_faults')])
+    dc.insert_before('self . cleanup_temp_directory ( ) ? ;',
+                     'let ghost wm = *w;\n        proof {\n'
+                     '            assert forall|fin: World| #[trigger] temp_frame(wm, fin, self.spec_temp(), fin.now) && fin.kept(wm) && fin.published == wm.published implies cleanup_frame(*old(w), fin, self.spec_base()) by {\n'
+                     '                lemma_cleanup_compose(*old(w), wm, fin, self.spec_base());\n'
+                     '            }\n        }\n        ')
+    dc.body_start('proof { lemma_cleanup_frame_same(*old(w), self.spec_base()); }')
+
+    mc = u.under_contract(t.sub(['fn maybe_cleanup']), ['C10', 'C02', 'C07', 'C17', 'C05', 'C18', 'C06', 'C20', 'C11'])
+    mc.air = r'cache_dir::CacheDir::maybe_cleanup'
+    mc.add_param(W)
+    mc.add_arg('self . trigger ( ) . event', TW)
+    mc.add_arg('self . definitely_cleanup', TW)
+    mc.contract(
+        requires=[('', 'old(w).inv() && (self.spec_temp() == child(self.spec_base(), temp_name()) && old(w).cache_dirs.contains(self.spec_base()) && !old(w).under_ro(self.spec_base()) && !old(w).under_ro(self.spec_temp()) && (forall|n: Seq<u8>| !old(w).under_ro(#[trigger] child(self.spec_base(), n))) && (forall|n: Seq<u8>| !old(w).under_ro(#[trigger] child(self.spec_temp(), n)))) && pv(base_dir) == self.spec_base()')],
+        ensures=[INV, ('', 'final(w).kept_nc(*old(w))'),
+                 ('C10:every-write-is-one-trigger-event-and-maintenance-runs-iff-it-fires',
+                  'observe_step(old(w).counter, self.spec_trigger().spec_scale(), !(r == Ok::<Option<u64>, Error>(None)), final(w).counter)'),
+                 ('C20 C06 C10:no-filesystem-call-unless-the-trigger-fires',
+                  'r == Ok::<Option<u64>, Error>(None) ==> *final(w) == (World { counter: final(w).counter, ..*old(w) })'),
+                 ('C17 C07 C02:maintenance-deletes-only-evictable-entries-and-stale-temporary-files', 'cleanup_frame(*old(w), *final(w), self.spec_base())'),
+                 ('C06:linear-in-the-number-of-directory-entries', 'final(w).steps <= old(w).steps + 4 + 3 * (final(w).listed - old(w).listed) && final(w).opens <= old(w).opens + 2'),
+                 ('C05 C18:error-is-a-real-fault', 'r.is_err() ==> final(w).hard_faults > old(w).hard_faults')])
+    mc.body_start('proof { lemma_cleanup_frame_same(*old(w), self.spec_base()); }')
+
+    mt = u.under_contract(t.sub(['fn maintain']), ['C07', 'C17', 'C02', 'C05', 'C18', 'C06'])
+    mt.air = r'cache_dir::CacheDir::maintain'
+    mt.add_param(W)
+    mt.add_arg('self . definitely_cleanup', TW)
+    mt.contract(
+        requires=[('', 'old(w).inv() && (self.spec_temp() == child(self.spec_base(), temp_name()) && old(w).cache_dirs.contains(self.spec_base()) && !old(w).under_ro(self.spec_base()) && !old(w).under_ro(self.spec_temp()) && (forall|n: Seq<u8>| !old(w).under_ro(#[trigger] child(self.spec_base(), n))) && (forall|n: Seq<u8>| !old(w).under_ro(#[trigger] child(self.spec_temp(), n))))')],
+        ensures=[INV, ('', 'final(w).kept(*old(w))'),
+                 ('C17 C07 C02:maintenance-deletes-only-evictable-entries-and-stale-temporary-files', 'cleanup_frame(*old(w), *final(w), self.spec_base())'),
+                 ('C06:linear-in-the-number-of-directory-entries', 'final(w).steps <= old(w).steps + 4 + 3 * (final(w).listed - old(w).listed) && final(w).opens <= old(w).opens + 2'),
+                 ('C05 C18:error-is-a-real-fault', 'r.is_err() ==> final(w).hard_faults > old(w).hard_faults')])
+
+    for opname, inner, nsteps in (('set', 'insert_or_update', 11), ('put', 'insert_or_touch', 13)):
+        f = u.under_contract(t.sub(['fn ' + opname]), ['C01', 'C02', 'C03', 'C04', 'C05', 'C06', 'C09', 'C10', 'C11', 'C15', 'C16', 'C17', 'C18', 'C19', 'C20'])
+        f.air = r'cache_dir::CacheDir::' + opname
+        f.add_param(W)
+        f.add_arg('self . maybe_cleanup', TW)
+        f.replace('raw_cache :: %s (' % inner, 'raw_cache::%s::run(' % inner, 'T2-shim-bypass')
+        f.add_arg('raw_cache :: ' + inner, TW)
+        f.add_arg('std :: fs :: create_dir_all', TW)
+        DST = 'child(self.spec_base(), str_bytes(name))'
+        exact = ('set_exact' if opname == 'set' else 'put_exact')
+        f.contract(
+            requires=[('', 'old(w).inv() && (self.spec_temp() == child(self.spec_base(), temp_name()) && old(w).cache_dirs.contains(self.spec_base()) && !old(w).under_ro(self.spec_base()) && !old(w).under_ro(self.spec_temp()) && (forall|n: Seq<u8>| !old(w).under_ro(#[trigger] child(self.spec_base(), n))) && (forall|n: Seq<u8>| !old(w).under_ro(#[trigger] child(self.spec_temp(), n))))'),
+                      ('C01 C03:caller-hands-in-a-private-finished-file-holding-the-value-for-this-key',
+                       'value_ready(*old(w), pv(value), self.spec_base(), str_bytes(name))')],
+            ensures=[
+                INV, ('', 'final(w).kept_nc(*old(w))'),
+                ('C16:invalid-names-fail-with-invalid-input-and-touch-nothing',
+                 '!first_byte_ok(str_bytes(name)) || str_bytes(name).contains(0x2fu8) ==> r.is_err() && err_kind(err_of(r)) == ErrorKind::InvalidInput && *final(w) == *old(w)'),
+                ('C10:maintenance-precedes-the-insertion-and-runs-iff-the-trigger-fires',
+                 'r.is_ok() ==> observe_step(old(w).counter, self.spec_trigger().spec_scale(), r.unwrap().is_some(), final(w).counter)'),
+                ('C06 C20:constant-number-of-filesystem-calls-outside-maintenance',
+                 'r.is_ok() && r.unwrap().is_none() ==> final(w).steps <= old(w).steps + %d && final(w).opens == old(w).opens && final(w).listed == old(w).listed' % nsteps),
+                ('C18 C11:success-means-the-key-is-bound-and-the-source-consumed',
+                 'r.is_ok() ==> old(w).files.contains_key(pv(value)) && !final(w).files.contains_key(pv(value)) && final(w).files.contains_key(%s)' % DST
+                 + (' && final(w).files[%s] == old(w).files[pv(value)]' % DST if opname == 'set' else '')),
+                ('C11 C04 C09 C10:exact-effect-when-nothing-failed',
+                 'r.is_ok() && final(w).hard_faults == old(w).hard_faults && old(w).dirs.contains(self.spec_base()) ==> exists|m: World| #[trigger] %s(*old(w), m, *final(w), self.spec_base(), str_bytes(name), pv(value), r.unwrap().is_some())' % exact),
+                ('C15 C16 C17:nothing-outside-this-cache-directory-changes',
+                 'write_frame(*old(w), *final(w), self.spec_base(), str_bytes(name), pv(value))'),
+                ('C18 C05:error-is-explained',
+                 'r.is_err() ==> !first_byte_ok(str_bytes(name)) || str_bytes(name).contains(0x2fu8) || final(w).hard_faults > old(w).hard_faults '
+                 '|| !final(w).files.contains_key(pv(value))'),
+            ])
+        f.body_start('broadcast use group_asref;\n        proof { lemma_cleanup_frame_same(*old(w), self.spec_base()); }')
+        f.insert_before('dst . push ( name )', 'let ghost wm = *w;\n        proof { lemma_child(self.spec_base(), str_bytes(name)); lemma_ready_after_cleanup(*old(w), wm, pv(value), self.spec_base(), str_bytes(name)); }\n        ')
+        f.insert_before('return Ok ( ret ) ;', 'proof { if w.hard_faults == old(w).hard_faults { assert(%s(*old(w), wm, *w, self.spec_base(), str_bytes(name), pv(value), ret.is_some())); } }\n            ' % exact)
+        f.insert_before('std :: fs :: create_dir_all', 'let ghost w1 = *w;\n        ', nth=0)
+        f.insert_after('. expect ( "must have parent" ) ) ? ;', '\n        let ghost w2 = *w;\n        proof { lemma_ready_after_retry(wm, w1, w2, pv(value), self.spec_base(), str_bytes(name)); }', nth=0)
     u.text('}\n')
 
 
